@@ -91,6 +91,9 @@ func (f *frame) specEnv(st *State, at *ssa.BasicBlock, overrides map[string]SV) 
 	for i, p := range f.fn.Params {
 		env.Vars[p.Name()] = f.toSV(f.params[i], st)
 	}
+	if f.fn == f.c.top {
+		f.bindFreeVars(env, st)
+	}
 	// named locals visible at `at`
 	if at != nil {
 		seen := map[string]bool{}
@@ -120,6 +123,90 @@ func (f *frame) specEnv(st *State, at *ssa.BasicBlock, overrides map[string]SV) 
 		env.Vars[k] = v
 	}
 	return env
+}
+
+// bindFreeVars makes the captured variables of a function literal nameable in its contract: the name denotes
+// the variable's content in state st (for a variable the literal never assigns, that is also its entry value).
+// Variables of struct or array type are not nameable (they would need a location, not a value).
+func (f *frame) bindFreeVars(env *SpecEnv, st *State) {
+	for fv, v := range f.c.freeVals {
+		pt, ok := fv.Type().Underlying().(*types.Pointer)
+		if !ok || isStruct(pt.Elem()) {
+			continue
+		}
+		if _, isArr := pt.Elem().Underlying().(*types.Array); isArr {
+			continue
+		}
+		if _, shadow := env.Vars[fv.Name()]; shadow {
+			continue
+		}
+		env.Vars[fv.Name()] = SV{Term: f.load(v, pt.Elem(), st), Typ: pt.Elem()}
+	}
+}
+
+// closurePreconditions: a function literal under contract is called by code the verifier does not see (a library
+// function it is handed to), so its preconditions are established where it is created: every requires clause may
+// mention captured variables only (not the literal's parameters, which the unknown caller chooses) and must hold
+// for their values at creation; and a captured variable is not assigned after the literal was created (every
+// store to its cell in the creating function comes before), so that the clause still holds when the literal runs.
+func (f *frame) closurePreconditions(mc *ssa.MakeClosure, st *State, b *ssa.BasicBlock) {
+	lit := mc.Fn.(*ssa.Function)
+	con := f.c.g.ContractOf(lit)
+	if con == nil || len(con.Requires) == 0 {
+		return
+	}
+	c := f.c
+	env := &SpecEnv{G: c.g, Pkg: lit.Pkg.Pkg, Vars: map[string]SV{}, Cur: st, Old: st, Next0: st.next, FnScope: fnScope(f.fn)}
+	stable := true
+	for i, fv := range lit.FreeVars {
+		bind := mc.Bindings[i]
+		pt, ok := fv.Type().Underlying().(*types.Pointer)
+		if !ok || isStruct(pt.Elem()) {
+			continue
+		}
+		if _, isArr := pt.Elem().Underlying().(*types.Array); isArr {
+			continue
+		}
+		env.Vars[fv.Name()] = SV{Term: f.load(f.val(bind), pt.Elem(), st), Typ: pt.Elem()}
+		if al, ok := bind.(*ssa.Alloc); ok {
+			for _, r := range *al.Referrers() {
+				s, isStore := r.(*ssa.Store)
+				if !isStore || s.Addr != al {
+					continue
+				}
+				if s.Block() == b {
+					before := false
+					for _, x := range b.Instrs {
+						if x == ssa.Instruction(s) {
+							before = true
+						}
+						if x == ssa.Instruction(mc) {
+							break
+						}
+					}
+					if !before {
+						stable = false
+					}
+				} else if !s.Block().Dominates(b) || b.Dominates(s.Block()) {
+					stable = false
+				}
+			}
+		}
+	}
+	name := strings.TrimPrefix(FuncKey(lit), FuncKey(f.fn))
+	for i, rq := range con.Requires {
+		for _, p := range lit.Params {
+			if mentionsIdent(rq.Expr, p.Name()) {
+				subsetf("requires clause of function literal %s mentions its parameter %s (only captured variables may be constrained)", FuncKey(lit), p.Name())
+			}
+		}
+		c.oblige(st, f.path, fmt.Sprintf("pre@literal%s#%d", name, i+1), env.Eval(rq.Expr).Term, "precondition of the function literal "+FuncKey(lit)+" holds where it is created: "+rq.Text, mc.Pos())
+	}
+	goal := "(= 0 0)" // not the literal "true": the obligation must exist (and be in the baseline) when it holds
+	if !stable {
+		goal = "false"
+	}
+	c.oblige(st, f.path, "pre@literal"+name+"#stable", goal, "captured variables of "+FuncKey(lit)+" are not assigned after the literal was created", mc.Pos())
 }
 
 func (f *frame) evalClause(cl Clause, env *SpecEnv) string {
@@ -556,6 +643,7 @@ func (f *frame) execInstr(b *ssa.BasicBlock, instr ssa.Instruction, st *State) {
 		f.execTypeAssert(in, st)
 	case *ssa.MakeClosure:
 		f.setVal(in, Val{T: "nil", Fn: in.Fn.(*ssa.Function), Typ: in.Type()})
+		f.closurePreconditions(in, st, b)
 	case *ssa.Call:
 		f.execCall(in, in.Common(), in.Pos(), st, b)
 	case *ssa.Defer:
